@@ -96,7 +96,17 @@ def make_judge(ctx, Fxp, what):
             if got != want:
                 ctx.violation('reduction_flags', '%s: exact raw results %s the range: overflow/underflow flags %r, expected %r' % (
                     desc, 'above' if above and not below else ('below' if below and not above else ('on both sides of' if above else 'inside')), got, want), ev, key='flags.reduction')
-            ctx.judged(('reduction-flags', ev.op, d['way'], t.overflow, above, below, big), above or below, None, elements=len(xs))
+            # the inaccuracy flag of the same write: raised iff a stored code differs from the exact result (which lies on the target's grid here), or an
+            # operand carried it, or the supplied out object had it raised already (sticky)
+            inexact_now = any(c != x for c, x in zip(res.codes, xs))
+            want_in = inexact_now or any(bool(o.status.get('inaccuracy')) for o in d['ops']) or (bool(t.status.get('inaccuracy')) and not d['like'])
+            if all(o.n_word <= 52 for o in d['ops']) and bool(res.status.get('inaccuracy')) != want_in:
+                ctx.violation('reduction_inaccuracy', '%s: inaccuracy flag %r, expected %r (stored codes %s the exact results; operands carried it: %r; out had it: %r)' % (
+                    desc, bool(res.status.get('inaccuracy')), want_in, 'differ from' if inexact_now else 'equal', [bool(o.status.get('inaccuracy')) for o in d['ops']],
+                    bool(t.status.get('inaccuracy')) and not d['like']), ev, key='flags.reduction.inaccuracy')
+            ctx.judged(('reduction-flags', ev.op, d['way'], t.overflow, above, below, big, inexact_now, want_in), above or below, None, elements=len(xs))
+            if want_in and not inexact_now:
+                ctx.floor_hit(('reduction-inaccuracy-kept',))
             if above or below:
                 ctx.floor_hit(('reduction-flags', 'beyond-int64' if big else 'moderate'))
     return reduce_target_judge
@@ -130,6 +140,16 @@ def workload(Fxp, fm, rng, _try):
         u64 = Fxp(np.array([2 ** 64 - 1 - rng.randint(0, 5), 2 ** 63 + rng.randint(0, 5), 7], dtype=object), False, 64, nf, raw=True)
         for f in (lambda: fm.trace(m, out_like=tgt()), lambda: m.trace(out=tgt(False)), lambda: fm.fxp_max(u64, out_like=tgt()), lambda: u64.max(out=tgt(False)), lambda: fm.sum(m, out_like=tgt()),
                   lambda: fm.fxp_min(u64[:2], out_like=tgt(False))):
+            _try(f)
+        # in-range exact results into an out object whose inaccuracy flag is already raised (sticky), and from an operand that carries it
+        flagged = Fxp(None, True, 24, nf, overflow=o)
+        flagged(0.3)
+        small = Fxp([3, -2, 5, 1], True, 8, nf, raw=True)
+        for f in (lambda: fm.sum(small, out=flagged), lambda: small.max(out=flagged), lambda: np.cumsum(small, out=Fxp(np.zeros(4) + 0.3, True, 24, nf, overflow=o)), lambda: fm.prod(small, out=flagged),
+                  lambda: fm.fxp_min(small, out=flagged), lambda: fm.dot(small, small, out=flagged)):
+            _try(f)
+        carrier = Fxp([0.3, 1, 2, -3], True, 12, 3)
+        for f in (lambda: fm.sum(carrier, out_like=Fxp(None, True, 24, 3, overflow=o)), lambda: carrier.max(out=Fxp(None, True, 24, 3, overflow=o)), lambda: fm.dot(carrier, carrier, out_like=Fxp(None, True, 30, 6, overflow=o))):
             _try(f)
         # signed: results below the range, moderately and far
         ws = rng.choice([33, 40, 52, 60])
